@@ -46,6 +46,10 @@ def main():
     for k, j in enumerate(jobs):
         if k % 4 == 0:
             j["manual_iters"] = 2   # the caller continues with sample() after run() returned
+    # run() called a second time on the same sampler (PSRun!RunAgain): every record stored or returned afterwards is coherent too
+    for i, c in enumerate([dict(evaluation="blobs", clustering=False), dict(evaluation="blobs", clustering=True, sample="rwm"), dict(evaluation="vector", support=0.5, ess_ratio=3.0, n_particles=16)]):
+        jobs.append({"conf": dict({"n_particles": 8}, **c), "seed": 770 + i + ck.seed, "label": f"run-again#{i}", "n_total": 24, "rerun": 40,
+                     "flags": [(True, True, True, True), (False, True, True, False)]})
     sc, traces = sysrun.system_part(ck, "C07", jobs, nontrivial)
     cov.update(sc)
     cov.update(sysrun.selftest(next(t for t in traces if nontrivial(t))))
